@@ -10,6 +10,12 @@ import core, models, geomdesc as gd, bounded
 
 PROP = "C11"
 
+def preload_flag(cid):
+    """every third case is loaded into a Geometry object that has already loaded the same description once: what a load
+    leaves in the object (vertices, lookup tables, derived state) must not show in the next one - the loaded geometry is a
+    function of the description (seeded C11-16: a vertex lookup table that survives clear())"""
+    return 1 if cid % 3 == 0 else 0
+
 def ombuild_repo():
     import ombuild
     return ombuild.REPO
@@ -143,7 +149,7 @@ def make_case(ck, cid, m, style, old, nprobes, rng, has_cond=True, cond_extra=No
     ctext = open(os.path.join(d, "model.cond"), "rb").read() if has_cond else b""
     lex_args = dict(m=m, T=T, files=dict(gd.write_geom.files), has_cond=has_cond, old=old, isign=list(aux["isign"]), probe_wire=list(aux["probe_wire"]), fl=list(fl))
     lline = core.fcase("c11lex", gd.lex_wire(m, T, lex_args["files"], gtext, ctext, has_cond, old, aux["isign"], aux["probe_wire"]), fl)
-    hline = core.fcase("c11", [1, cid, 1 if has_cond else 0, 1 if old else 0], [c for p in probes for c in p])
+    hline = core.fcase("c11", [1, cid, 1 if has_cond else 0, 1 if old else 0, preload_flag(cid)], [c for p in probes for c in p])
     # expected conductivity per domain name: the first entry of that name
     first = {}
     for l in lines:
@@ -506,7 +512,7 @@ def main(replay=None):
             if c["has_cond"]: open(os.path.join(d, "model.cond"), "wb").write(ctext)
             lexcases.append(dict(tag="lex:%s:%s" % (which, kind), of=c["tag"], dir=d,
                                  lline=core.fcase("c11lex", gd.lex_wire(la["m"], la["T"], la["files"], gtext, ctext, la["has_cond"], la["old"], la["isign"], la["probe_wire"]), la["fl"]),
-                                 hline=core.fcase("c11", [1, cid, 1 if la["has_cond"] else 0, 1 if la["old"] else 0], [x for p_ in c["probes"] for x in p_]),
+                                 hline=core.fcase("c11", [1, cid, 1 if la["has_cond"] else 0, 1 if la["old"] else 0, preload_flag(cid)], [x for p_ in c["probes"] for x in p_]),
                                  geom=gtext.decode(errors="replace"), cond=ctext.decode(errors="replace")))
             dist[lexcases[-1]["tag"]] = dist.get(lexcases[-1]["tag"], 0) + 1
     lo = core.run_model([c["lline"] for c in cases] + [c["lline"] for c in lexcases])
